@@ -327,6 +327,15 @@ def run(chk, tier):
         for w in ("std", "wide", "narrow", "r60", "r37"):
             cover.append({"id": "v-%s-%s" % (op, w), "prog": first_by_op[op]["prog"], "cfg": dict(stdc, width=w),
                           "inputs": ["small:16", "rand", "small:4"]})
+    # lookup sweep: many lookups with pseudo-random indices into the 16- and 32-entry tables, so that every slot of a
+    # table row and of a lookup row is used (a single lookup leaves all but one slot at multiplicity zero, which hides
+    # how slots are grouped into the partial sums)
+    sweep = [{"op": "mul" if j % 2 == 0 else "add", "args": [j, j + 1]} for j in range(10)]
+    sweep += [{"op": "lookup", "args": [i, 1]} for i in range(13)] + [{"op": "lookup", "args": [i, 2]} for i in range(13)]
+    for w in ("std", "wide", "r60", "r37"):
+        for k in range(2):
+            cover.append({"id": "v-lookup_sweep%d-%s" % (k, w), "prog": {"nin": 3, "instrs": sweep}, "cfg": dict(stdc, width=w),
+                          "inputs": ["rand", "rand", "rand"]})
     rows = make_scenarios(p1, cfgs, classes, rnd, "a") + cover
     rows += make_scenarios(psim, cfgs, classes, rnd, "s")
     rows += make_scenarios(p2, cfgs, classes, rnd, "b")
